@@ -12,6 +12,7 @@ CONSTANTS Comp = "hub_re"
   NBuf = 2
   Gaps <- G_none
   Strict = FALSE
+  Busy = FALSE
   D = 2
 INIT Init
 NEXT Next
